@@ -1,4 +1,6 @@
 import Frp.Lemmas.Router
+import Frp.Lemmas.VhostReg
+import Frp.Model.Host
 /-
   C06 — Virtual-host routing always picks the most specific matching route.
 
@@ -399,6 +401,488 @@ theorem model_holdsOn {R : Routers} (hR : Router.Inv R) (all : List Route)
     simp only [Option.map_some]
     obtain ⟨hreg, hm, hbest⟩ := getVhost_some hR h
     exact ⟨r, (hall r).mpr hreg, rfl, hm, fun r' hr' hm' => hbest r' ((hall r').mp hr') hm'⟩
+
+end C06
+end Frp
+
+/-! ## The server-side registration layer (server/proxy/http.go, https.go, tcpmux.go,
+       server/group/http.go) that feeds the route tables
+
+  Model: Frp/Model/VhostReg.lean, invariant and step lemmas: Frp/Lemmas/VhostReg.lean.
+  All statements are about every history of proxy `Run` / `Close` with arbitrary configurations
+  (any custom domains, subdomain, locations, route user, group and group key, proxy names). -/
+namespace Frp
+namespace C06
+open Str Router VhostReg
+
+inductive ROp
+  | run (id : Nat) (c : Cfg)
+  | close (id : Nat)
+
+def rapply (sh : Str) (S : St) : ROp → St
+  | .run id c => (VhostReg.run sh S id c).1
+  | .close id => VhostReg.close S id
+
+/-- the state after any history of `Run` / `Close` (`sh` = the server's subDomainHost) -/
+def rrun (sh : Str) (ops : List ROp) : St := ops.foldl (rapply sh) St.empty
+
+/-- every reachable state of the registration layer satisfies the ownership invariant `InvL` -/
+theorem reg_inv_reachable (sh : Str) (ops : List ROp) : InvL (rrun sh ops).tab (rrun sh ops).hs := by
+  unfold rrun
+  suffices h : ∀ S : St, InvL S.tab S.hs → InvL (ops.foldl (rapply sh) S).tab (ops.foldl (rapply sh) S).hs
+    from h _ invL_empty
+  induction ops with
+  | nil => intro S h; exact h
+  | cons op ops ih =>
+    intro S h
+    apply ih
+    cases op with
+    | run id c => exact inv_run sh h id c
+    | close id => exact inv_close h id
+
+/-- proxy instance `id` is one of those a route with this payload hands requests to: the proxy that
+    registered it, or a member of the group that registered it -/
+def Serves (T : Tab) (payload id : Nat) : Prop :=
+  payload = 2 * id ∨
+  ∃ n g, T.G.get n = some g ∧ payload = 2 * g.gid + 1 ∧ ∃ nm, (nm, id) ∈ g.members
+
+/-- **The route table is exactly the union of what the live proxies stand for.**  `liveRoutes hs`
+    is computed from the live proxies alone (their (domain, location) pairs, lower-cased domain,
+    route user); each of its entries is a stored route served by that proxy, and every stored
+    route together with each proxy serving it is one of its entries. -/
+theorem reg_table_eq_live {T : Tab} {hs : List Holder} (hI : InvL T hs) (x : Route) :
+    x ∈ liveRoutes hs ↔
+      ∃ r, Registered T.R r ∧ r.domain = x.domain ∧ r.location = x.location ∧ r.user = x.user ∧
+        Serves T r.payload x.payload := by
+  constructor
+  · intro hx
+    obtain ⟨h, hh, hx'⟩ := List.mem_flatMap.mp hx
+    obtain ⟨k, hk, rfl⟩ := List.mem_map.mp hx'
+    by_cases hg : h.group = []
+    · exact ⟨pr h k, hI.own h hh hg k hk, rfl, rfl, rfl, Or.inl rfl⟩
+    · have hkne : h.keys ≠ [] := by intro e; rw [e] at hk; cases hk
+      obtain ⟨g, hget, hm⟩ := hI.gmem h hh hg hkne
+      obtain ⟨h', hh', e1, _, _, e4, e5⟩ := hI.gholder _ g hget _ hm
+      have : h' = h := id_unique hI.ids hh' hh e1
+      subst this
+      rw [e4] at hk
+      simp only [List.mem_singleton] at hk
+      subst hk
+      refine ⟨gr g, (hI.groute _ g hget (members_ne_nil hm)).1, rfl, rfl, e5.symm, ?_⟩
+      exact Or.inr ⟨_, g, hget, rfl, _, hm⟩
+  · rintro ⟨r, hr, e1, e2, e3, hs'⟩
+    obtain ⟨xd, xl, xu, xp⟩ := x
+    dsimp only at e1 e2 e3 hs'
+    subst e1 e2 e3
+    rcases hs' with hp | ⟨n, g, hget, hp, nm, hm⟩
+    · obtain ⟨h, hh, _, k, hk, hrk⟩ := hI.owned r hr (by omega)
+      subst hrk
+      dsimp only [pr] at hp
+      have : h.id = xp := by omega
+      subst this
+      exact List.mem_flatMap.mpr ⟨h, hh, List.mem_map.mpr ⟨k, hk, rfl⟩⟩
+    · obtain ⟨n', g', hget', _, hrg⟩ := hI.gowned r hr (by omega)
+      subst hrg
+      dsimp only [gr] at hp
+      have : n' = n := hI.ginj n' n g' g hget' hget (by omega)
+      subst this
+      rw [hget] at hget'
+      have := Option.some.inj hget'; subst this
+      obtain ⟨h, hh, e1, _, _, e4, e5⟩ := hI.gholder _ g hget _ hm
+      dsimp only at e1
+      subst e1
+      refine List.mem_flatMap.mpr ⟨h, hh, List.mem_map.mpr ⟨(g.domain, g.location), by rw [e4]; simp, ?_⟩⟩
+      rw [e5]; rfl
+
+private theorem matches_congr {a b : Route} (e1 : a.domain = b.domain) (e2 : a.location = b.location)
+    (e3 : a.user = b.user) (host path user : Str) : Matches a host path user ↔ Matches b host path user := by
+  unfold Matches; rw [e1, e2, e3]
+
+private theorem als_congr {a b : Route} (e1 : a.domain = b.domain) (e2 : a.location = b.location)
+    (e3 : a.user = b.user) (host user : Str) (r : Route) :
+    AtLeastAsSpecific host user r a ↔ AtLeastAsSpecific host user r b := by
+  unfold AtLeastAsSpecific hostRank userRank; rw [e1, e2, e3]
+
+/-- every stored route has somebody serving it -/
+theorem reg_served {T : Tab} {hs : List Holder} (hI : InvL T hs) {r : Route} (hr : Registered T.R r) :
+    ∃ id, Serves T r.payload id := by
+  rcases Nat.mod_two_eq_zero_or_one r.payload with he | ho
+  · obtain ⟨h, _, _, k, _, hrk⟩ := hI.owned r hr he
+    exact ⟨h.id, Or.inl (by rw [hrk]; rfl)⟩
+  · obtain ⟨n, g, hget, hne, hrg⟩ := hI.gowned r hr ho
+    obtain ⟨m, hm⟩ := List.exists_mem_of_ne_nil _ hne
+    exact ⟨m.2, Or.inr ⟨n, g, hget, by rw [hrg]; rfl, m.1, hm⟩⟩
+
+/-- **Requests go to the most specific LIVE proxy.**  In every state satisfying the invariant (so:
+    after every history of Run / Close) the lookup, read as "which proxy instance gets the request",
+    is a correct answer — in the sense of the C06 predicate `HoldsOn` — with respect to the routes
+    the live proxies stand for: some live proxy serves the chosen route, every proxy serving it is
+    a live proxy whose route matches and is at least as specific as every live matching route; and a
+    lookup fails only if no live proxy's route matches. -/
+theorem reg_lookup_most_specific {T : Tab} {hs : List Holder} (hI : InvL T hs) (host path user : Str) :
+    match getVhost T.R host path user with
+    | none => HoldsOn (liveRoutes hs) host path user none
+    | some r => (∃ id, Serves T r.payload id) ∧
+        ∀ id, Serves T r.payload id → HoldsOn (liveRoutes hs) host path user (some id) := by
+  split
+  · rename_i hnone
+    intro x hx hm
+    obtain ⟨r, hr, e1, e2, e3, _⟩ := (reg_table_eq_live hI x).mp hx
+    exact getVhost_none hnone r hr ((matches_congr e1 e2 e3 host path user).mpr hm)
+  · rename_i r hsome
+    obtain ⟨hreg, hm, hbest⟩ := getVhost_some hI.rinv hsome
+    refine ⟨reg_served hI hreg, ?_⟩
+    intro id hs'
+    have hx : ({ domain := r.domain, location := r.location, user := r.user, payload := id } : Route)
+        ∈ liveRoutes hs := (reg_table_eq_live hI _).mpr ⟨r, hreg, rfl, rfl, rfl, hs'⟩
+    refine ⟨_, hx, rfl, (matches_congr rfl rfl rfl host path user).mp hm, ?_⟩
+    intro r' hr' hm'
+    obtain ⟨r'', hr'', e1, e2, e3, _⟩ := (reg_table_eq_live hI r').mp hr'
+    have := hbest r'' hr'' ((matches_congr e1 e2 e3 host path user).mpr hm')
+    have h2 := (als_congr e1 e2 e3 host user r).mp this
+    unfold AtLeastAsSpecific hostRank userRank at h2 ⊢
+    exact h2
+
+/-- `Run` either succeeds, and then the proxy is live with exactly the (domain, location) pairs its
+    configuration stands for (customDomains × locations, then subdomain.subDomainHost × locations) … -/
+theorem reg_run_ok {sh : Str} {S : St} (hI : InvL S.tab S.hs) (id : Nat) (c : Cfg)
+    (h : (VhostReg.run sh S id c).2 = .ok) :
+    (VhostReg.run sh S id c).1.hs = holderOf id c (triples sh c) :: S.hs := by
+  unfold VhostReg.run at h ⊢
+  split
+  · rename_i hb; rw [if_pos hb] at h; cases h
+  · rename_i hfresh
+    rw [if_neg hfresh] at h
+    have hfresh' : ∀ h ∈ S.hs, (holderOf id c []).id ≠ h.id := by
+      intro h hh e
+      apply hfresh
+      simp only [List.any_eq_true, decide_eq_true_eq]
+      exact ⟨h, hh, e.symm⟩
+    have h0 := inv_intro (p := holderOf id c []) hI rfl hfresh'
+    obtain ⟨_, _, h3⟩ := inv_claim (gkey := c.groupKey) (triples sh c) S.tab (holderOf id c []) h0
+    split
+    · rename_i T' p hc
+      rw [hc] at h3
+      have h4 : p = _ := h3 rfl
+      rw [h4]; rfl
+    · rename_i T' p e hc
+      rw [hc] at h; cases h
+
+/-- … or is refused (duplicate triple, group parameter / key mismatch, name repeated in the group,
+    instance already running), and then **the set of live proxies is unchanged** — by
+    `reg_table_eq_live` / `reg_lookup_most_specific` (the invariant still holds: `reg_inv_reachable`)
+    so is everything a request can observe: a refused registration changes nothing. -/
+theorem reg_refused_unchanged (sh : Str) (S : St) (id : Nat) (c : Cfg)
+    (h : (VhostReg.run sh S id c).2 ≠ .ok) : (VhostReg.run sh S id c).1.hs = S.hs := by
+  unfold VhostReg.run at h ⊢
+  split
+  · rfl
+  · rename_i hfresh
+    rw [if_neg hfresh] at h
+    split
+    · rename_i T' p hc; rw [hc] at h; exact absurd rfl h
+    · rfl
+
+theorem close_hs (S : St) (id : Nat) : ∀ h ∈ (VhostReg.close S id).hs, h.id ≠ id := by
+  unfold VhostReg.close
+  split
+  · rename_i hf
+    intro h hh e
+    have := List.find?_eq_none.mp hf h hh
+    simp [e] at this
+  · intro h hh
+    have := (List.mem_filter.mp hh).2
+    simpa using this
+
+/-- **Close unregisters exactly the proxy's own routes**: the live set afterwards is the live set
+    before minus that proxy … -/
+theorem reg_close_hs (S : St) (id : Nat) (h : Holder) :
+    h ∈ (VhostReg.close S id).hs ↔ h ∈ S.hs ∧ h.id ≠ id := by
+  unfold VhostReg.close
+  split
+  · rename_i hf
+    constructor
+    · intro hh
+      refine ⟨hh, fun e => ?_⟩
+      have := List.find?_eq_none.mp hf h hh
+      simp [e] at this
+    · exact fun hh => hh.1
+  · rw [List.mem_filter]; simp
+
+/-- … and **takes effect from the next request on**: after `Close id`, in any reachable state, no
+    lookup hands a request to proxy instance `id` (until an instance with that number runs again). -/
+theorem reg_close_effective (sh : Str) (ops : List ROp) (id : Nat) (host path user : Str) (r : Route)
+    (h : getVhost (VhostReg.close (rrun sh ops) id).tab.R host path user = some r) :
+    ¬ Serves (VhostReg.close (rrun sh ops) id).tab r.payload id := by
+  intro hs'
+  have hI := inv_close (reg_inv_reachable sh ops) id
+  have hreg := (getVhost_some hI.rinv h).1
+  have hx : ({ domain := r.domain, location := r.location, user := r.user, payload := id } : Route)
+      ∈ liveRoutes (VhostReg.close (rrun sh ops) id).hs :=
+    (reg_table_eq_live hI _).mpr ⟨r, hreg, rfl, rfl, rfl, hs'⟩
+  obtain ⟨h', hh', hx'⟩ := List.mem_flatMap.mp hx
+  obtain ⟨k, _, hk⟩ := List.mem_map.mp hx'
+  have : h'.id = id := congrArg Route.payload hk
+  exact close_hs _ id h' hh' this
+
+/-! ### non-vacuity: a history with multi-domain, multi-location, subdomain and group proxies -/
+
+def shDemo : Str := s "sub.example.com"
+
+def cfgDemo (name : String) (domains : List String) (sub : String) (locs : List String)
+    (user group key : String) : Cfg :=
+  { name := s name, domains := domains.map s, sub := s sub, locations := locs.map s, user := s user,
+    group := s group, groupKey := s key }
+
+def regDemo : St := rrun shDemo
+  [ .run 1 (cfgDemo "multi" ["A.example.com", "b.example.com"] "t" ["/", "/api"] "" "" "")
+  , .run 2 (cfgDemo "g1" ["c.example.com"] "" [] "" "grp" "k")
+  , .run 3 (cfgDemo "g2" ["c.example.com"] "" [] "" "grp" "k")
+  , .run 4 (cfgDemo "dup" ["x.example.com", "a.example.com"] "" ["/api"] "" "" "")   -- refused, rolled back
+  , .run 5 (cfgDemo "g3" ["b.example.com"] "" ["/"] "" "new" "k")                    -- refused first member
+  , .close 2 ]
+
+example : InvL regDemo.tab regDemo.hs := reg_inv_reachable _ _
+example : regDemo.hs.map (·.id) = [3, 1] := by decide +kernel
+example : (liveRoutes regDemo.hs).length = 7 := by decide +kernel
+example : (getVhost regDemo.tab.R (s "a.example.com") (s "/api/x") []).map (·.payload) = some 2 := by
+  decide +kernel
+example : (getVhost regDemo.tab.R (s "x.example.com") (s "/api") []).map (·.payload) = none := by
+  decide +kernel
+example : (getVhost regDemo.tab.R (s "t.sub.example.com") (s "/") []).map (·.payload) = some 2 := by
+  decide +kernel
+example : ((getVhost regDemo.tab.R (s "c.example.com") (s "/") []).map (·.payload)).map
+    (servers regDemo.tab) = some [3] := by decide +kernel
+
+end C06
+end Frp
+
+/-! ## Host spellings: letter case, port suffix and trailing dot are ignored
+       (pkg/util/http/http.go `CanonicalHost`, model Frp/Model/Host.lean) -/
+namespace Frp
+namespace C06
+open Str Router Host
+
+/-- a way to write a host name in a request: the name (in any letter case), optionally the trailing
+    dot of a fully qualified name, optionally a port suffix -/
+def spell (name : Str) (dotted : Bool) (port : Option Str) : Str :=
+  name ++ (if dotted then [dot] else []) ++ (match port with | none => [] | some p => colon :: p)
+
+/-- no colon, no bracket -/
+def Plain (s : Str) : Prop := colon ∉ s ∧ lbr ∉ s ∧ rbr ∉ s
+
+/-- a plain host name (not an IP literal in brackets) that does not itself end in a dot -/
+def PlainName (n : Str) : Prop := Plain n ∧ n.getLast? ≠ some dot
+
+instance (s : Str) : Decidable (Plain s) := by unfold Plain; infer_instance
+instance (n : Str) : Decidable (PlainName n) := by unfold PlainName; infer_instance
+
+private theorem lowerB_eq_iff (c x : Nat) (hx : x = colon ∨ x = lbr ∨ x = rbr ∨ x = dot) :
+    lowerB c = x ↔ c = x := by
+  unfold lowerB colon lbr rbr dot at *
+  split <;> omega
+
+private theorem not_mem_toLower {s : Str} {x : Nat} (hx : x = colon ∨ x = lbr ∨ x = rbr ∨ x = dot)
+    (h : x ∉ s) : x ∉ toLower s := by
+  intro hm
+  obtain ⟨c, hc, e⟩ := List.mem_map.mp hm
+  rw [(lowerB_eq_iff c x hx).mp e] at hc
+  exact h hc
+
+private theorem plain_toLower {s : Str} (h : Plain s) : Plain (toLower s) :=
+  ⟨not_mem_toLower (Or.inl rfl) h.1, not_mem_toLower (Or.inr (Or.inl rfl)) h.2.1,
+   not_mem_toLower (Or.inr (Or.inr (Or.inl rfl))) h.2.2⟩
+
+private theorem plainName_toLower {n : Str} (h : PlainName n) : PlainName (toLower n) := by
+  refine ⟨plain_toLower h.1, ?_⟩
+  intro e
+  unfold toLower at e
+  rw [List.getLast?_map] at e
+  cases hl : n.getLast? with
+  | none => rw [hl] at e; cases e
+  | some c =>
+    rw [hl] at e
+    simp only [Option.map_some, Option.some.injEq] at e
+    rw [(lowerB_eq_iff c dot (Or.inr (Or.inr (Or.inr rfl)))).mp e] at hl
+    exact h.2 hl
+
+private theorem toLower_spell (name : Str) (dotted : Bool) (port : Option Str) :
+    toLower (spell name dotted port) = spell (toLower name) dotted (port.map toLower) := by
+  unfold spell toLower
+  cases dotted <;> cases port <;> simp [lowerB_dot] <;> decide
+
+private theorem count_eq_zero {c : Nat} {s : Str} (h : c ∉ s) : count c s = 0 := by
+  unfold count
+  rw [List.length_eq_zero_iff, List.filter_eq_nil_iff]
+  intro a ha e
+  simp only [decide_eq_true_eq] at e
+  exact h (e ▸ ha)
+
+private theorem trimDot_dotted (n : Str) : trimDot (n ++ [dot]) = n := by
+  unfold trimDot
+  simp
+
+private theorem trimDot_plain {n : Str} (h : n.getLast? ≠ some dot) : trimDot n = n := by
+  unfold trimDot
+  split
+  · rename_i c rest hr
+    split
+    · rename_i hc
+      exfalso; apply h
+      rw [List.getLast?_eq_head?_reverse, hr, hc]; rfl
+    · rfl
+  · rfl
+
+private theorem indexOf_append {c : Nat} {x y : Str} (h : c ∉ x) :
+    indexOf c (x ++ c :: y) = some x.length := by
+  induction x with
+  | nil => simp [indexOf]
+  | cons a xs ih =>
+    have ha : a ≠ c := fun e => h (by simp [e])
+    have hxs : c ∉ xs := fun e => h (by simp [e])
+    simp [indexOf, ha, ih hxs]
+
+private theorem lastIndexOf_append {c : Nat} {a b : Str} (h : c ∉ b) :
+    lastIndexOf c (a ++ c :: b) = some a.length := by
+  unfold lastIndexOf
+  have hrev : (a ++ c :: b).reverse = b.reverse ++ c :: a.reverse := by simp
+  rw [hrev, indexOf_append (by simpa using h)]
+  simp only [Option.map_some, List.length_append, List.length_cons, List.length_reverse,
+    Option.some.injEq]
+  omega
+
+private theorem head_ne_of_not_mem {c : Nat} {s : Str} (h : c ∉ s) : s.head? ≠ some c := by
+  intro e
+  cases s with
+  | nil => cases e
+  | cons a t => simp only [List.head?_cons, Option.some.injEq] at e; exact h (by simp [e])
+
+private theorem contains_false {c : Nat} {s : Str} (h : c ∉ s) : s.contains c = false := by
+  simpa using h
+
+/-- `CanonicalHost` of a lower-case plain name with optional dot and port is the name -/
+private theorem canonical_lower {n : Str} (dotted : Bool) (port : Option Str) (hn : PlainName n)
+    (hl : toLower n = n) (hp : ∀ p, port = some p → Plain p ∧ toLower p = p) :
+    canonicalHost (spell n dotted port) = some n := by
+  obtain ⟨⟨hc, hlb, hrb⟩, hlast⟩ := hn
+  -- the name with its optional dot
+  have ha : ∃ a : Str, a = n ++ (if dotted then [dot] else []) ∧ colon ∉ a ∧ lbr ∉ a ∧ rbr ∉ a ∧
+      trimDot a = n ∧ toLower a = a := by
+    refine ⟨_, rfl, ?_, ?_, ?_, ?_, ?_⟩
+    · cases dotted <;> simp [hc, show colon ≠ dot by decide]
+    · cases dotted <;> simp [hlb, show lbr ≠ dot by decide]
+    · cases dotted <;> simp [hrb, show rbr ≠ dot by decide]
+    · cases dotted
+      · simpa using trimDot_plain hlast
+      · simpa using trimDot_dotted n
+    · cases dotted
+      · simpa using hl
+      · simp only [toLower, List.map_append] at hl ⊢
+        rw [hl]; simp [lowerB_dot]
+  obtain ⟨a, hae, hac, halb, harb, hat, hal⟩ := ha
+  unfold spell
+  rw [← hae]
+  cases port with
+  | none =>
+    simp only [List.append_nil]
+    unfold canonicalHost
+    simp only [hal]
+    have : hasPort a = false := by unfold hasPort; simp [count_eq_zero hac]
+    rw [this]; simp [hat]
+  | some p =>
+    obtain ⟨⟨hpc, hplb, hprb⟩, hpl⟩ := hp p rfl
+    have hlow : toLower (a ++ colon :: p) = a ++ colon :: p := by
+      simp only [toLower, List.map_append, List.map_cons] at hal hpl ⊢
+      rw [hal, hpl]; rfl
+    have hcount : count colon (a ++ colon :: p) = 1 := by
+      unfold count
+      rw [List.filter_append, List.filter_cons]
+      have h1 := count_eq_zero hac
+      have h2 := count_eq_zero hpc
+      unfold count at h1 h2
+      simp [List.length_append, h1, h2]
+    have hnl : lbr ∉ a ++ colon :: p := by simp [halb, hplb, show lbr ≠ colon by decide]
+    have hnr : rbr ∉ a ++ colon :: p := by simp [harb, hprb, show rbr ≠ colon by decide]
+    unfold canonicalHost
+    simp only [hlow]
+    have hhp : hasPort (a ++ colon :: p) = true := by unfold hasPort; simp [hcount]
+    rw [hhp]
+    simp only [if_true]
+    have hsplit : splitHostPort (a ++ colon :: p) = some a := by
+      unfold splitHostPort
+      rw [lastIndexOf_append hpc]
+      simp only
+      rw [if_neg (head_ne_of_not_mem hnl)]
+      simp only [List.take_left', contains_false hac, contains_false hnl, contains_false hnr]
+      simp
+    rw [hsplit]; simp [hat]
+
+/-- **Host comparison ignores letter case, a port suffix and a trailing dot**: every spelling of a
+    plain name — any letter case, with or without the trailing dot, with or without a port — has the
+    lower-case name as canonical host, so all spellings of one name are routed alike. -/
+theorem canonicalHost_spell (name : Str) (dotted : Bool) (port : Option Str) (hn : PlainName name)
+    (hp : ∀ p, port = some p → Plain p) :
+    canonicalHost (spell name dotted port) = some (toLower name) := by
+  have h1 : canonicalHost (spell name dotted port) =
+      canonicalHost (spell (toLower name) dotted (port.map toLower)) := by
+    unfold canonicalHost
+    rw [toLower_spell, toLower_spell, toLower_idem]
+    have : (port.map toLower).map toLower = port.map toLower := by
+      cases port <;> simp [toLower_idem]
+    rw [this]
+  rw [h1]
+  apply canonical_lower dotted _ (plainName_toLower hn) (toLower_idem name)
+  intro p hpe
+  cases port with
+  | none => cases hpe
+  | some q =>
+    simp only [Option.map_some, Option.some.injEq] at hpe
+    subst hpe
+    exact ⟨plain_toLower (hp q rfl), toLower_idem q⟩
+
+/-- the port suffix, if any, has no colon and no bracket (digits in practice) -/
+def PortPlain : Option Str → Prop
+  | none => True
+  | some p => Plain p
+
+instance (port : Option Str) : Decidable (PortPlain port) := by
+  cases port <;> unfold PortPlain <;> infer_instance
+
+/-- the answer `res` (canonical host or error) of the implementation for a spelling of `name`
+    (with or without the dot, with port suffix `port`) is what the property demands -/
+def SpellHolds (name : Str) (port : Option Str) (res : Option Str) : Prop :=
+  PlainName name → PortPlain port → res = some (toLower name)
+
+instance (name : Str) (port : Option Str) (res : Option Str) :
+    Decidable (SpellHolds name port res) := by
+  unfold SpellHolds; infer_instance
+
+def spellHoldsOn (name : Str) (port : Option Str) (res : Option Str) : Bool :=
+  decide (SpellHolds name port res)
+
+theorem spellHoldsOn_sound (name : Str) (port : Option Str) (res : Option Str) :
+    spellHoldsOn name port res = true ↔ SpellHolds name port res := by
+  simp [spellHoldsOn]
+
+theorem model_spellHolds (name : Str) (dotted : Bool) (port : Option Str) :
+    SpellHolds name port (canonicalHost (spell name dotted port)) :=
+  fun hn hp => canonicalHost_spell name dotted port hn
+    (fun p e => by subst e; exact hp)
+
+/-- **Routed requests**: for every reachable route table, a request whose Host is any spelling of a
+    plain name is answered as the C06 predicate demands for the lower-case name itself
+    (`ServeHTTP` / `readHTTPConnectRequest` look up `CanonicalHost(req.Host)`). -/
+theorem spelled_lookup_holds {R : Routers} (hR : Router.Inv R) (all : List Route)
+    (hall : ∀ r, r ∈ all ↔ Registered R r) (name : Str) (dotted : Bool) (port : Option Str)
+    (hn : PlainName name) (hp : ∀ p, port = some p → Plain p) (path user : Str) :
+    HoldsOn all (toLower name) path user
+      ((getVhost R ((canonicalHost (spell name dotted port)).getD []) path user).map (·.payload)) := by
+  rw [canonicalHost_spell name dotted port hn hp]
+  exact model_holdsOn hR all hall (toLower name) path user
+
+example : canonicalHost (spell (s "App.Example.com") true (some (s "8080"))) = some (s "app.example.com") := by
+  decide +kernel
+example : PlainName (s "App.Example.com") := by decide +kernel
 
 end C06
 end Frp
